@@ -160,6 +160,16 @@ o *
 t * %ordered %logic=common.permanent
 """, [S(["o k1"], [P(["seq 1", "seq 2", "seq 3"])]), P(["t 1", "t 2"])])
 
+# a line with ignore_changes logic inside an %ordered block row: when the block is dropped and re-created the line is re-entered
+fam("F12", """
+pm *
+    cl * %ordered
+        ql * %logic=common.ignore_changes
+        ~
+""", [S(["pm k1"], [PB(["cl 1", "cl 2", "cl 3"], [S(["ql 1 v1"]), S(["p"])], maxlen=2)])],
+    # (the value of the ignore_changes line itself never changes here: a changed value is kept by design, see F1b)
+    [S(["pm k1"], [PB(["cl 1", "cl 2", "cl 3"], [S(["ql 1 v1"]), S(["p"]), S(["ql 2 v1"])], maxlen=2)])])
+
 BLOCK_VENDORS = ["huawei", "cisco", "nexus", "iosxr", "arista", "aruba", "b4com", "h3c", "optixtrans", "pc"]
 
 FAM = os.environ.get("VT_FAM", "F1a")
@@ -425,7 +435,7 @@ def plan(tier):
     fams = [("F1a", "huawei", 12), ("F1b", "cisco", 10), ("F2", "huawei", 8), ("F3", "huawei,cisco", 6),
             ("F4", "huawei,iosxr", 4), ("F5", "huawei,arista", 4), ("F6", "huawei", 6),
             ("F7", "huawei,cisco,pc" if q else ",".join(BLOCK_VENDORS), 12), ("F8", "huawei,cisco", 6),
-            ("F9", "cisco,huawei", 6), ("F10", "cisco,huawei", 6), ("F11", "cisco,huawei", 4)]
+            ("F9", "cisco,huawei", 6), ("F10", "cisco,huawei", 6), ("F11", "cisco,huawei", 4), ("F12", "cisco,huawei", 4)]
     for (f, vendors, shards) in fams:
         if not q:
             shards *= 3
